@@ -1,5 +1,7 @@
 import DoviModel.Model.CView
 import DoviModel.Model.Ops
+import DoviModel.Proofs.CViewProof
+import DoviModel.Props.C03
 /-!
 # C20 — the C API presents the same data as the Rust API and reports failures as errors
 
@@ -564,5 +566,413 @@ example : (cLevels exDm).level2.length = 2 ∧ (cLevels exDm).level1.isSome ∧ 
 example : (allocs exRpu).length = (frees (cview exRpu)).length ∧ (allocs exRpu).length > 12 := by decide
 example : (cMapping {}).nlq_method_idc = -1 ∧ (cMapping {}).nlq_pred_pivot_value = [] := by decide
 example : cParseRpu [] = some { rpu := none, error := true } := by decide
+
+end Dovi.C20
+
+/-! # Audit additions: ownership for every parsed RPU; the C structures determine the Rust structures -/
+namespace Dovi.C20
+open Dovi Dovi.CViewP
+
+/-! ## ownership hypotheses hold for every parse result -/
+
+/-- **both halves of the ownership hypothesis hold for every RPU `DoviRpu::parse` returns**: the DM half from
+`validate` (single-instance levels occur at most once), the curve half because the parser builds each component
+piece by piece and `validate` (`Curve.piecesOk`, repository fix 324e2a5) rejects a component whose pieces went
+to both boxes: what is left has exactly one of `polynomial` / `mmr` (`parseMapping_shape`) -/
+theorem parsed_ownershipOk (d : Bytes) (r : Rpu) (h : parseRpu d = .ok r) : r.ownershipOk = true := by
+  have hdm := parsed_singlesOnce d r h
+  have hmp := parseRpu_mapping_shape h
+  unfold Rpu.ownershipOk
+  rw [Bool.and_eq_true]
+  constructor
+  · cases hm : r.rpu_data_mapping with
+    | none => rfl
+    | some m => exact shape_notMixed r.header m (hmp m hm)
+  · cases hd : r.vdr_dm_data with
+    | none => rfl
+    | some dm => rw [hd] at hdm; exact hdm
+
+/-- **free once, for every parsed RPU, without further hypotheses**: the objects released by the three free
+functions are exactly the objects the three getters allocated, each exactly once, and no deallocation site is
+reached with a null pointer -/
+theorem parsed_free_once (d : Bytes) (r : Rpu) (h : parseRpu d = .ok r) :
+    (∀ o, (frees (cview r)).count o = (allocs r).count o) ∧ (∀ o, (allocs r).count o ≤ 1) ∧
+    (frees (cview r)).Perm (allocs r) ∧ none ∉ freeCalls (cview r) :=
+  have hf := free_once r (parsed_ownershipOk d r h)
+  ⟨hf.1, hf.2.1, hf.2.2, no_null_freed r⟩
+
+theorem parsed_alloc_once (d : Bytes) (r : Rpu) (h : parseRpu d = .ok r) (o : Obj) : (allocs r).count o ≤ 1 :=
+  alloc_once r (parsed_ownershipOk d r h) o
+
+/-- a handle that holds an RPU got it from `DoviRpu::parse` on some (trimmed / unescaped / unwrapped) buffer -/
+theorem handle_rpu_parsed (d : Bytes) (h : Handle) (r : Rpu)
+    (hh : cParseRpu d = some h ∨ cParseNalu d = some h ∨ cParseAv1 d = some h) (hr : h.rpu = some r) :
+    ∃ t, parseRpu t = .ok r := by
+  have key : ∀ (x : Res Bytes) (f : Bytes → Bytes), Handle.ofRes (x.bind fun t => parseRpu (f t)) = some h →
+      ∃ t, parseRpu t = .ok r := by
+    intro x f hx
+    cases x with
+    | error => simp only [Res.bind, Handle.ofRes, Option.some.injEq] at hx; subst hx; cases hr
+    | panic => simp [Res.bind, Handle.ofRes] at hx
+    | ok t =>
+      simp only [Res.bind] at hx
+      cases hp : parseRpu (f t) with
+      | error => rw [hp] at hx; simp only [Handle.ofRes, Option.some.injEq] at hx; subst hx; cases hr
+      | panic => rw [hp] at hx; simp [Handle.ofRes] at hx
+      | ok r' =>
+        rw [hp] at hx
+        simp only [Handle.ofRes, Option.some.injEq] at hx
+        subst hx
+        injection hr with hr
+        subst hr
+        exact ⟨f t, hp⟩
+  rcases hh with hh | hh | hh
+  · exact key (trimPrefix d) id hh
+  · exact key (trimPrefix d) Esc.unescape hh
+  · exact key (Av1.unwrap d) id hh
+
+/-- **every object returned for a handle of the three C parse functions can be freed exactly once without
+fault** (the last clause of the property, for all input buffers) -/
+theorem c_parse_free_once (d : Bytes) (h : Handle) (r : Rpu)
+    (hh : cParseRpu d = some h ∨ cParseNalu d = some h ∨ cParseAv1 d = some h) (hr : h.rpu = some r) :
+    (∀ o, (frees (cview r)).count o = (allocs r).count o) ∧ (∀ o, (allocs r).count o ≤ 1) ∧
+    (frees (cview r)).Perm (allocs r) ∧ none ∉ freeCalls (cview r) := by
+  obtain ⟨t, ht⟩ := handle_rpu_parsed d h r hh hr
+  exact parsed_free_once t r ht
+
+-- the hypotheses are satisfiable: `parsed_ownershipOk` is applied to real parse results by `./check C20`; the
+-- curve half is not a consequence of `piecesOk` alone (a hand-built component with both boxes passes it):
+example : ({ polynomial := some { poly_order_minus1 := [0] }, mmr := some {} } : Curve).piecesOk = true ∧
+    ({ polynomial := some { poly_order_minus1 := [0] }, mmr := some {} } : Curve).notMixed = false := by decide
+
+/-! ## the header view determines every exported header field -/
+
+/-- the JSON rendering of the C header (what the correspondence check compares with the real `repr(C)` struct)
+is injective on `guessed_profile`, `el_type` and every header field the C struct has — no two fields are merged;
+the three Rust fields the C struct does not have (`coefficient_log2_denom_length`, `ext_mapping_idc_0_4`,
+`ext_mapping_idc_5_7`) are the only ones it does not determine -/
+theorem header_json_injective (c c' : CHeader) (h : c.toJson = c'.toJson) :
+    c.guessed_profile = c'.guessed_profile ∧ c.el_type = c'.el_type ∧
+    ({ c.hdr with coefficient_log2_denom_length := 0, ext_mapping_idc_0_4 := 0, ext_mapping_idc_5_7 := 0 } : Header) =
+      { c'.hdr with coefficient_log2_denom_length := 0, ext_mapping_idc_0_4 := 0, ext_mapping_idc_5_7 := 0 } := by
+  obtain ⟨g, e, hd⟩ := c
+  obtain ⟨g', e', hd'⟩ := c'
+  cases hd; cases hd'
+  simp only [CHeader.toJson, cn, CJ.obj.injEq, List.cons.injEq, Prod.mk.injEq, CJ.num.injEq, CJ.bool.injEq,
+    Int.natCast_inj, true_and, and_true] at h
+  obtain ⟨h1, h2, h3⟩ := h
+  refine ⟨h1, ?_, ?_⟩
+  · cases e with
+    | none => cases e' with
+      | none => rfl
+      | some x => cases x <;> simp at h2
+    | some x => cases e' with
+      | none => cases x <;> simp at h2
+      | some y => cases x <;> cases y <;> simp at h2 <;> rfl
+  · simp only [Header.mk.injEq, true_and]
+    simp_all
+
+/-! ## the C mapping determines the Rust mapping -/
+
+/-- reading the C `RpuDataMapping` back gives the Rust mapping: no field is lost, merged or reordered
+(three components; `-1` markers, the empty buffer and the null data pointer decode uniquely) -/
+theorem cMapping_roundtrip (m : Mapping) (hl : m.curves.length = 3) : toMapping (cMapping m) = m :=
+  toMapping_cMapping m hl
+
+/-- hence the conversion is injective on mappings with three components -/
+theorem cMapping_injective (m m' : Mapping) (hl : m.curves.length = 3) (hl' : m'.curves.length = 3)
+    (h : cMapping m = cMapping m') : m = m' := by
+  rw [← toMapping_cMapping m hl, ← toMapping_cMapping m' hl', h]
+
+example : ({} : Mapping).curves.length = 3 := rfl
+
+/-- the length hypothesis is needed: a fourth component is not visible through the fixed array of three -/
+example : cMapping { curves := [{}, {}, {}, { num_pivots_minus2 := 7 }] } = cMapping {} := by decide
+
+/-! ## the C `DmData` determines, level by level, the blocks of the DM payload -/
+
+/-- reading the C `DmData` back level by level: for a valid DM payload the list / pointer of level `l` holds
+exactly the blocks of level `l` of both containers, in container order -/
+theorem cLevels_perLevel (d : DmData) (hv : d.validate = true) (l : Nat) :
+    perLevel (cLevels d) l = levelList d.allBlocks l := by
+  obtain ⟨h29, h40, _, _⟩ := validate_levels d hv
+  have hs := singlesOnce_of_validate d hv
+  simp only [DmData.singlesOnce, List.all_eq_true, decide_eq_true_eq] at hs
+  have n29 : ∀ k, k ∉ cmv29Levels → levelList (containerBlocks d.cmv29) k = [] :=
+    fun k hk => levelList_nil_of_levels _ _ k h29 hk
+  have n40 : ∀ k, k ∉ cmv40Levels → levelList (containerBlocks d.cmv40) k = [] :=
+    fun k hk => levelList_nil_of_levels _ _ k h40 hk
+  rw [DmData.allBlocks, levelList_append]
+  by_cases h2 : l = 2
+  · subst h2
+    rw [n40 2 (by decide), List.append_nil]; rfl
+  by_cases h8 : l = 8
+  · subst h8
+    rw [n29 8 (by decide), List.nil_append]; rfl
+  by_cases h10 : l = 10
+  · subst h10
+    rw [n29 10 (by decide), List.nil_append]; rfl
+  simp only [perLevel, h2, h8, h10, if_false]
+  by_cases hsl : l ∈ singleLevels
+  · rw [single_cLevels d l hsl, ← levelList_append, ← DmData.allBlocks]
+    exact getLast?_toList_of_le_one _ (hs l hsl)
+  · have hl29 : l ∉ cmv29Levels := by
+      simp only [singleLevels, cmv29Levels, List.mem_cons, List.not_mem_nil, or_false, not_or] at hsl ⊢
+      omega
+    have hl40 : l ∉ cmv40Levels := by
+      simp only [singleLevels, cmv40Levels, List.mem_cons, List.not_mem_nil, or_false, not_or] at hsl ⊢
+      omega
+    rw [n29 l hl29, n40 l hl40]
+    have : single (cLevels d) l = none := by
+      simp only [singleLevels, List.mem_cons, List.not_mem_nil, or_false, not_or] at hsl
+      obtain ⟨a1, a3, a4, a5, a6, a9, a11, a254, a255⟩ := hsl
+      simp [single, a1, a3, a4, a5, a6, a9, a11, a254, a255]
+    rw [this]; rfl
+
+theorem levelList_c29 (d : DmData) (hv : d.validate = true) (l : Nat) :
+    levelList (containerBlocks d.cmv29) l = if l ∈ cmv29Levels then levelList d.allBlocks l else [] := by
+  obtain ⟨h29, h40, _, _⟩ := validate_levels d hv
+  split
+  · rename_i hl
+    have : l ∉ cmv40Levels := by
+      simp only [cmv29Levels, cmv40Levels, List.mem_cons, List.not_mem_nil, or_false, not_or] at hl ⊢
+      omega
+    rw [DmData.allBlocks, levelList_append, levelList_nil_of_levels _ _ l h40 this, List.append_nil]
+  · rename_i hl
+    exact levelList_nil_of_levels _ _ l h29 hl
+
+theorem levelList_c40 (d : DmData) (hv : d.validate = true) (l : Nat) :
+    levelList (containerBlocks d.cmv40) l = if l ∈ cmv40Levels then levelList d.allBlocks l else [] := by
+  obtain ⟨h29, h40, _, _⟩ := validate_levels d hv
+  split
+  · rename_i hl
+    have : l ∉ cmv29Levels := by
+      simp only [cmv29Levels, cmv40Levels, List.mem_cons, List.not_mem_nil, or_false, not_or] at hl ⊢
+      omega
+    rw [DmData.allBlocks, levelList_append, levelList_nil_of_levels _ _ l h29 this, List.nil_append]
+  · rename_i hl
+    exact levelList_nil_of_levels _ _ l h40 hl
+
+/-- **the information content of the C `DmData`**: two valid DM payloads have the same C level structure if and
+only if each container holds, level by level, the same blocks in the same order, and the block counts add up to
+the same number.  Nothing of a level is lost or merged; what the per-level pointers cannot show is only how
+blocks of *different* levels were interleaved inside a container (and how the count splits) -/
+theorem cLevels_eq_iff (d d' : DmData) (hv : d.validate = true) (hv' : d'.validate = true) :
+    cLevels d = cLevels d' ↔
+      (∀ l, levelList (containerBlocks d.cmv29) l = levelList (containerBlocks d'.cmv29) l) ∧
+      (∀ l, levelList (containerBlocks d.cmv40) l = levelList (containerBlocks d'.cmv40) l) ∧
+      containerCount d.cmv29 + containerCount d.cmv40 = containerCount d'.cmv29 + containerCount d'.cmv40 := by
+  constructor
+  · intro h
+    have hall : ∀ l, levelList d.allBlocks l = levelList d'.allBlocks l := by
+      intro l
+      rw [← cLevels_perLevel d hv l, ← cLevels_perLevel d' hv' l, h]
+    refine ⟨fun l => ?_, fun l => ?_, ?_⟩
+    · rw [levelList_c29 d hv, levelList_c29 d' hv', hall]
+    · rw [levelList_c40 d hv, levelList_c40 d' hv', hall]
+    · exact congrArg CLevels.num_ext_blocks h
+  · rintro ⟨a, b, c⟩
+    have a' : ∀ l, List.filter (fun x : Block => x.level == l) (containerBlocks d.cmv29) =
+        List.filter (fun x : Block => x.level == l) (containerBlocks d'.cmv29) := a
+    have b' : ∀ l, List.filter (fun x : Block => x.level == l) (containerBlocks d.cmv40) =
+        List.filter (fun x : Block => x.level == l) (containerBlocks d'.cmv40) := b
+    simp only [cLevels, lastOfLevel, levelList, DmData.allBlocks, List.filter_append, a', b', c]
+
+/-- lists with the same blocks per level are permutations of each other -/
+theorem perm_of_levelLists (a b : List Block) (h : ∀ l, levelList a l = levelList b l) : a.Perm b := by
+  rw [List.perm_iff_count]
+  intro x
+  have e : ∀ l : List Block, List.count x (levelList l x.level) = List.count x l := by
+    intro l
+    unfold levelList
+    exact List.count_filter (by simp)
+  rw [← e a, ← e b, h]
+
+/-- the interleaving of levels really is not visible: two valid payloads, same C structure, different order -/
+example :
+    let d : DmData := { cmv29 := some { num_ext_blocks := 2, blocks := [⟨1, 5, [0, 100, 50]⟩, ⟨5, 7, [0, 0, 0, 0]⟩] },
+                        main := (List.replicate 32 (0 : Int)).set 25 12 |>.set 21 65535 }
+    let d' : DmData := { d with cmv29 := some { num_ext_blocks := 2, blocks := [⟨5, 7, [0, 0, 0, 0]⟩, ⟨1, 5, [0, 100, 50]⟩] } }
+    d.validate = true ∧ d'.validate = true ∧ cLevels d = cLevels d' ∧ d ≠ d' := by decide
+
+/-! ## two parsed RPUs with the same C view -/
+
+/-- two DM payloads that agree in every scalar field and, container by container and level by level, in their
+blocks (hence up to a permutation that keeps the order inside each level) -/
+def DmSame (d d' : DmData) : Prop :=
+  d.compressed = d'.compressed ∧ d.affected_dm_metadata_id = d'.affected_dm_metadata_id ∧
+  d.current_dm_metadata_id = d'.current_dm_metadata_id ∧ d.scene_refresh_flag = d'.scene_refresh_flag ∧
+  d.main = d'.main ∧ d.cmv29.isSome = d'.cmv29.isSome ∧ d.cmv40.isSome = d'.cmv40.isSome ∧
+  containerCount d.cmv29 = containerCount d'.cmv29 ∧ containerCount d.cmv40 = containerCount d'.cmv40 ∧
+  (∀ l, levelList (containerBlocks d.cmv29) l = levelList (containerBlocks d'.cmv29) l) ∧
+  (∀ l, levelList (containerBlocks d.cmv40) l = levelList (containerBlocks d'.cmv40) l) ∧
+  (containerBlocks d.cmv29).Perm (containerBlocks d'.cmv29) ∧ (containerBlocks d.cmv40).Perm (containerBlocks d'.cmv40)
+
+/-- container facts of a parsed DM payload: CM v2.9 container present, counts are the list lengths, the
+CM v4.0 container is present exactly when there is an L254 block -/
+theorem parsed_dm_containers (a : Bytes) (r : Rpu) (hp : parseRpu a = .ok r) (d : DmData) (hd : r.vdr_dm_data = some d) :
+    d.validate = true ∧ d.cmv29.isSome = true ∧ containerCount d.cmv29 = (containerBlocks d.cmv29).length ∧
+    containerCount d.cmv40 = (containerBlocks d.cmv40).length ∧
+    (d.cmv40.isSome = true ↔ levelList (containerBlocks d.cmv40) 254 ≠ []) := by
+  obtain ⟨hval, bits, rest, r0, hrd, rfl⟩ := parseRpu_parts hp
+  obtain ⟨_, _, _, _, _, hdm⟩ := readRpuData_parts hrd
+  obtain ⟨s, s', hs⟩ := hdm d hd
+  obtain ⟨_, _, _, ⟨c29, hc29, ok29⟩, ok40, _⟩ := ParseWf.parseDmData_wf hs
+  have hdv : d.validate = true := by
+    simp only [Rpu.validate, Bool.and_eq_true] at hval
+    have := hval.2
+    dsimp only at hd this
+    rw [hd] at this
+    exact this
+  refine ⟨hdv, by simp [hc29], by simp [hc29, containerCount, containerBlocks, ok29.count], ?_, ?_⟩
+  · cases hc40 : d.cmv40 with
+    | none => rfl
+    | some c => simp [containerCount, containerBlocks, (ok40 c hc40).count]
+  · cases hc40 : d.cmv40 with
+    | none => simp [containerBlocks, levelList]
+    | some c =>
+      simp only [DmData.validate, hc40, Bool.and_eq_true] at hdv
+      have h254 := hdv.2
+      simp only [Container.validate40, Bool.and_eq_true, beq_iff_eq] at h254
+      have : countLevel c.blocks 254 = 1 := h254.1.1.1.1.1.2
+      simp only [Option.isSome_some, containerBlocks, true_iff]
+      intro hnil
+      have : (levelList c.blocks 254).length = 1 := this
+      rw [hnil] at this
+      cases this
+
+/-- **two parsed RPUs with the same C view carry the same data**: the same header (every field), profile and
+`el_type`, the same mapping (every coefficient, pivot, NLQ field and marker), and DM payloads that agree in all
+scalar fields and, container by container and level by level, in their blocks.  The only thing the C structures
+do not determine is the interleaving of DM blocks of different levels (see the example above), plus the parts
+of the Rust `DoviRpu` that have no getter (`remaining`, CRC, trailing zero count) -/
+theorem cview_injective_parsed (a b : Bytes) (r r' : Rpu) (hp : parseRpu a = .ok r) (hp' : parseRpu b = .ok r')
+    (hc : cview r = cview r') :
+    r.header = r'.header ∧ r.dovi_profile = r'.dovi_profile ∧ r.el_type = r'.el_type ∧
+    r.rpu_data_mapping = r'.rpu_data_mapping ∧
+    (r.vdr_dm_data = none ↔ r'.vdr_dm_data = none) ∧
+    ∀ d d', r.vdr_dm_data = some d → r'.vdr_dm_data = some d' → DmSame d d' := by
+  have hh : r.header = r'.header := congrArg (fun v => v.header.hdr) hc
+  have hel : r.el_type = r'.el_type := congrArg (fun v => v.header.el_type) hc
+  have hprof : r.dovi_profile = r'.dovi_profile := by
+    obtain ⟨_, _, _, r0, hrd, rfl⟩ := parseRpu_parts hp
+    obtain ⟨_, _, _, r0', hrd', rfl⟩ := parseRpu_parts hp'
+    have e1 := (readRpuData_parts hrd).1
+    have e2 := (readRpuData_parts hrd').1
+    dsimp only at hh ⊢
+    rw [e1, e2, hh]
+  have hmap : r.rpu_data_mapping.map cMapping = r'.rpu_data_mapping.map cMapping := congrArg CView.mapping hc
+  have hdm : r.vdr_dm_data.map cDm = r'.vdr_dm_data.map cDm := congrArg CView.dm hc
+  refine ⟨hh, hprof, hel, ?_, ?_, ?_⟩
+  · cases hm : r.rpu_data_mapping with
+    | none =>
+      cases hm' : r'.rpu_data_mapping with
+      | none => rfl
+      | some m' => rw [hm, hm'] at hmap; cases hmap
+    | some m =>
+      cases hm' : r'.rpu_data_mapping with
+      | none => rw [hm, hm'] at hmap; cases hmap
+      | some m' =>
+        rw [hm, hm'] at hmap
+        simp only [Option.map_some, Option.some.injEq] at hmap
+        have l1 := (shape_curves _ _ m (parseRpu_mapping_shape hp m hm)).1
+        have l2 := (shape_curves _ _ m' (parseRpu_mapping_shape hp' m' hm')).1
+        rw [cMapping_injective m m' l1 l2 hmap]
+  · cases hd : r.vdr_dm_data <;> cases hd' : r'.vdr_dm_data <;> rw [hd, hd'] at hdm <;> simp at hdm ⊢
+  · intro d d' hd hd'
+    rw [hd, hd'] at hdm
+    simp only [Option.map_some, Option.some.injEq] at hdm
+    obtain ⟨v, s29, n29, n40, i40⟩ := parsed_dm_containers a r hp d hd
+    obtain ⟨v', s29', n29', n40', i40'⟩ := parsed_dm_containers b r' hp' d' hd'
+    have hlev : cLevels d = cLevels d' := congrArg CDm.dm_data hdm
+    obtain ⟨e29, e40, _⟩ := (cLevels_eq_iff d d' v v').1 hlev
+    have p29 := perm_of_levelLists _ _ e29
+    have p40 := perm_of_levelLists _ _ e40
+    refine ⟨congrArg CDm.compressed hdm, congrArg CDm.affected_dm_metadata_id hdm,
+      congrArg CDm.current_dm_metadata_id hdm, congrArg CDm.scene_refresh_flag hdm, congrArg CDm.main hdm,
+      by rw [s29, s29'], ?_, by rw [n29, n29', p29.length_eq], by rw [n40, n40', p40.length_eq], e29, e40, p29, p40⟩
+    have : (d.cmv40.isSome = true ↔ d'.cmv40.isSome = true) := by rw [i40, i40', e40]
+    cases h1 : d.cmv40.isSome <;> cases h2 : d'.cmv40.isSome <;> simp_all
+
+/-- if both payloads keep each container sorted by level (as every container touched by `add_block` /
+`replace_metadata_block` is: `Container.update` sorts), agreement up to interleaving is equality -/
+theorem dmSame_sorted_eq (d d' : DmData) (h : DmSame d d')
+    (s29 : LevelSorted (containerBlocks d.cmv29)) (s29' : LevelSorted (containerBlocks d'.cmv29))
+    (s40 : LevelSorted (containerBlocks d.cmv40)) (s40' : LevelSorted (containerBlocks d'.cmv40)) : d = d' := by
+  obtain ⟨a, b, c, e, f, i29, i40, n29, n40, l29, l40, _, _⟩ := h
+  have b29 := sorted_eq_of_levelLists _ _ s29 s29' l29
+  have b40 := sorted_eq_of_levelLists _ _ s40 s40' l40
+  have opt : ∀ (o o' : Option Container), o.isSome = o'.isSome → containerCount o = containerCount o' →
+      containerBlocks o = containerBlocks o' → o = o' := by
+    intro o o' h1 h2 h3
+    cases o with
+    | none => cases o' with
+      | none => rfl
+      | some c' => cases h1
+    | some c => cases o' with
+      | none => cases h1
+      | some c' =>
+        cases c; cases c'
+        simp only [containerCount, containerBlocks] at h2 h3
+        subst h2; subst h3; rfl
+  have e29 := opt _ _ i29 n29 b29
+  have e40 := opt _ _ i40 n40 b40
+  cases d; cases d'
+  simp only at a b c e f e29 e40
+  subst a; subst b; subst c; subst e; subst f; subst e29; subst e40
+  rfl
+
+/-- **two parsed RPUs with the same C view and level-sorted containers are the same RPU** up to the parts the C
+API has no getter for (the bytes between the DM data and the CRC, the CRC itself, the trailing zero count) -/
+theorem cview_injective_parsed_sorted (a b : Bytes) (r r' : Rpu) (hp : parseRpu a = .ok r) (hp' : parseRpu b = .ok r')
+    (hc : cview r = cview r')
+    (hs : ∀ d, r.vdr_dm_data = some d → LevelSorted (containerBlocks d.cmv29) ∧ LevelSorted (containerBlocks d.cmv40))
+    (hs' : ∀ d, r'.vdr_dm_data = some d → LevelSorted (containerBlocks d.cmv29) ∧ LevelSorted (containerBlocks d.cmv40)) :
+    r' = { r with remaining := r'.remaining, rpu_data_crc32 := r'.rpu_data_crc32, trailing_zeroes := r'.trailing_zeroes } := by
+  obtain ⟨h1, h2, h3, h4, h5, h6⟩ := cview_injective_parsed a b r r' hp hp' hc
+  have hdm : r.vdr_dm_data = r'.vdr_dm_data := by
+    cases hd : r.vdr_dm_data with
+    | none => exact (h5.1 hd).symm
+    | some d =>
+      cases hd' : r'.vdr_dm_data with
+      | none => rw [h5.2 hd'] at hd; cases hd
+      | some d' =>
+        have := dmSame_sorted_eq d d' (h6 d d' hd hd') (hs d hd).1 (hs' d' hd').1 (hs d hd).2 (hs' d' hd').2
+        rw [this]
+  have hm : r.modified = r'.modified := by
+    obtain ⟨_, _, _, r0, hrd, rfl⟩ := parseRpu_parts hp
+    obtain ⟨_, _, _, r0', hrd', rfl⟩ := parseRpu_parts hp'
+    have e1 := (readRpuData_parts hrd).2.2.1
+    have e2 := (readRpuData_parts hrd').2.2.1
+    show r0.modified = r0'.modified
+    rw [e1, e2]
+  cases r; cases r'
+  simp only at h1 h2 h3 h4 hdm hm ⊢
+  subst h1; subst h2; subst h3; subst h4; subst hdm; subst hm
+  rfl
+
+/-- non-vacuity of the `parseRpu d = .ok r` hypotheses above: the bytes written for the generator's profile 8.1
+RPU (polynomial mapping, CM v2.9 and v4.0 containers with L5, L6, L9, L11, L254) are accepted by the parser, so
+`parsed_free_once` / `cview_injective_parsed` apply to it -/
+example : ∃ a r, parseRpu a = .ok r ∧ r.rpu_data_mapping.isSome = true ∧ r.vdr_dm_data.isSome = true ∧
+    r.ownershipOk = true ∧ (allocs r).length > 12 ∧
+    (∀ d, r.vdr_dm_data = some d → LevelSorted (containerBlocks d.cmv29) ∧ LevelSorted (containerBlocks d.cmv40)) := by
+  have hw : writeRpu C03.exRpu = .ok C03.exBytes := by
+    have hok := C03.exRpu_wf.2
+    unfold C03.exBytes
+    cases h : writeRpu C03.exRpu with
+    | ok b => rfl
+    | error => rw [h] at hok; cases hok
+    | panic => rw [h] at hok; cases hok
+  obtain ⟨crc, hp, _⟩ := C03.write_parse_sound C03.exRpu C03.exBytes hw C03.exRpu_wf.1
+  refine ⟨_, _, hp, (by decide : C03.exRpu.rpu_data_mapping.isSome = true),
+    (by decide : C03.exRpu.vdr_dm_data.isSome = true), parsed_ownershipOk _ _ hp,
+    (by decide : (allocs C03.exRpu).length > 12), ?_⟩
+  intro d hd
+  have : C03.exRpu.vdr_dm_data = some d := hd
+  have hdec : ∀ d, C03.exRpu.vdr_dm_data = some d →
+      (containerBlocks d.cmv29).Pairwise (fun a b => a.level ≤ b.level) ∧
+      (containerBlocks d.cmv40).Pairwise (fun a b => a.level ≤ b.level) := by decide
+  exact hdec d this
 
 end Dovi.C20
